@@ -321,6 +321,8 @@ pub struct OpRec {
     pub pend_first_call: Option<u32>,
     /// virtual time of the first poll that left the call waiting for a slot (its timer starts there)
     pub wait_start_ms: Option<u64>,
+    /// the call is inside a blocking `Semaphore::acquire()` right now
+    pub sem_waiting: bool,
     /// step of the resize for which this waiting get counts as admitted earlier
     pub exempt_resize: Option<u64>,
     /// C03: books before the call (snapshot, idle ids, status)
@@ -531,6 +533,7 @@ impl MWorld {
             pend_base: if actor == CONTROLLER { 0 } else { engine::pending_count(actor) },
             pend_first_call: None,
             wait_start_ms: None,
+            sem_waiting: false,
             exempt_resize: None,
             snap0: None,
         };
